@@ -24,10 +24,13 @@ Step(e) ==
     CASE e.a = "reset" ->
            /\ docs' = [k \in Keys |-> NoDoc] /\ clock' = 0 /\ cmark' = 0 /\ omark' = 0 /\ vlast' = 0 /\ rows' = {} /\ dv' = 0 /\ nver' = 0
            /\ nfail' = nfail
-      [] e.a = "write" -> WriteC(e.k, e.kd, e.cas) /\ nfail' = nfail + F(e.res = "ok", e, <<"write-failed", e.kd>>, "ok", e.res)
+      [] e.a = "write" -> IF e.res = "ok" /\ (e.kd = "tomb" => docs[e.k].kind \in {"emit", "skip"})
+                          THEN WriteC(e.k, e.kd, e.cas) /\ nfail' = nfail
+                          ELSE /\ UNCHANGED <<docs, clock, cmark, omark, vlast, rows, dv, nver>>
+                               /\ nfail' = nfail + F(FALSE, e, <<"write-failed", e.kd>>, "ok", e.res)
       [] e.a = "other" -> WriteOtherC(e.cas) /\ nfail' = nfail + F(e.res = "ok", e, <<"write-failed">>, "ok", e.res)
-      [] e.a = "meta" -> Meta(e.k, e.c, e.kd) /\ nfail' = nfail + F(e.res = "ok", e, <<"write-failed", e.kd>>, "ok", e.res)
-      [] e.a = "purge" -> Purge /\ nfail' = nfail
+      [] e.a = "meta" -> MetaC(e.k, e.c, e.kd) /\ nfail' = nfail + F(e.res = "ok", e, <<"write-failed", e.kd>>, "ok", e.res)
+      [] e.a = "purge" -> PurgeC /\ nfail' = nfail
       [] e.a = "replace" -> Replace /\ nfail' = nfail
       \* a non-stale query returns the map of the current documents (the property itself), which is also what the
       \* specification's index holds after its update
